@@ -43,6 +43,8 @@ class MosekWrapper(Wrapper):
         _nb_pep_constraints_in_mosek (int): total number of scalar constraints sent to MOSEK.
         _list_of_psd_constraints_sent_to_solver (list): list of PSD constraints sent to MOSEK.
         _nb_pep_SDPconstraints_in_mosek (int): total number of PSD constraints sent to MOSEK.
+        _lmi_entries_index_in_mosek (list of integer): for each LMI constraint sent to MOSEK, index of the MOSEK
+                                                       constraint corresponding to its first entry.
         env: MOSEK environment
         task: Mosek task
 
@@ -69,6 +71,7 @@ class MosekWrapper(Wrapper):
         self._nb_pep_constraints_in_mosek = 0
         self._list_of_psd_constraints_sent_to_solver = list()
         self._nb_pep_SDPconstraints_in_mosek = 0
+        self._lmi_entries_index_in_mosek = list()  # indices of the first MOSEK constraint of each LMI.
 
         import mosek
 
@@ -183,6 +186,7 @@ class MosekWrapper(Wrapper):
         # Create a symmetric matrix in MOSEK
         size = psd_matrix.shape[0]
         self.task.appendbarvars([size])
+        self._lmi_entries_index_in_mosek.append(self.task.getnumcon())
 
         # Store one correspondence constraint per entry of the matrix
         for i in range(psd_matrix.shape[0]):
@@ -241,6 +245,11 @@ class MosekWrapper(Wrapper):
                 dual_values.append(-self._get_Gram_from_mosek(self.task.getbarsj(mosek.soltype.itr, counter_psd),
                                                               constraint_or_psd.shape[0]))
                 assert dual_values[-1].shape == constraint_or_psd.shape
+                # Store the dual values of the correspondences between the entries of the matrix and the expressions
+                first = self._lmi_entries_index_in_mosek[counter_psd - 1]
+                constraint_or_psd.entries_dual_variable_value = -np.array(
+                    scalar_dual_values[first:first + constraint_or_psd.shape[0] * constraint_or_psd.shape[1]]
+                ).reshape(constraint_or_psd.shape)
                 counter_psd += 1
             else:
                 raise TypeError("The list of constraints that are sent to CVXPY should contain only"
